@@ -211,6 +211,17 @@ func (l *link) status() string {
 	return fmt.Sprintf("#%d %s s2r=%d r2s=%d", l.n, w, l.bytes[s2r].Load(), l.bytes[r2s].Load())
 }
 
+// Send is one extra request a raw runtime peer sends to the stub in a session. At: "after-sync"
+// (right after its Configure / Synchronize), "after-probe" (after the first probe that reached
+// the plugin), "before-end" (just before the harness stops the stub or drops the connection).
+// Req: "shutdown", "configure" (a second Configure), "synchronize" (another Synchronize),
+// "unknown-event" (StateChange with an event number that does not exist), "unknown-method" (a
+// call of a method the plugin service does not have).
+type Send struct {
+	At  string `json:"at"`
+	Req string `json:"req"`
+}
+
 // rawMode says how the raw runtime peer behaves.
 type rawMode struct {
 	accept        bool          // answer RegisterPlugin with success (otherwise with an error)
@@ -222,7 +233,8 @@ type rawMode struct {
 	reqMs         int64         // ConfigureRequest.RequestTimeout
 	doSync        bool          // send an (empty) Synchronize after Configure
 	updSilent     bool          // never answer the plugin's UpdateContainers (and do not close)
-	closeOnCfgErr bool          // close the connection when the plugin answers Configure with an error (otherwise keep it)
+	sends         []Send
+	closeOnCfgErr bool // close the connection when the plugin answers Configure with an error (otherwise keep it)
 }
 
 // refuser is a raw runtime peer (multiplexer + ttRPC server and client, built the way
@@ -240,7 +252,10 @@ type refuser struct {
 	plugin  api.PluginService
 	mode    rawMode
 	regs    atomic.Int32
-	cfgSent atomic.Bool  // the Configure request has been issued
+	cfgSent atomic.Bool // the Configure request has been issued
+	sendMu  sync.Mutex
+	sent    map[int]bool // extra requests already sent (by index)
+	sentLog []string     // what was sent and how it was answered
 	cfgErr  atomic.Value // error text of the Configure / Synchronize call, if any
 	done    chan struct{}
 	quit    chan struct{} // closed by close(): releases a silent RegisterPlugin
@@ -288,6 +303,47 @@ func (r *refuser) handshake() {
 		if r.mode.closeOnCfgErr {
 			r.close()
 		}
+		return
+	}
+	r.sendExtras("after-sync")
+}
+
+// sendExtras sends the session's extra requests planned for this point, each once, and waits
+// for their answers (2 s each at most). What the stub answers is recorded, not judged here.
+func (r *refuser) sendExtras(at string) {
+	for i, sd := range r.mode.sends {
+		if sd.At != at {
+			continue
+		}
+		r.sendMu.Lock()
+		if r.sent == nil {
+			r.sent = map[int]bool{}
+		}
+		done := r.sent[i]
+		r.sent[i] = true
+		r.sendMu.Unlock()
+		if done {
+			continue
+		}
+		ctx, cancel := context.WithTimeout(context.Background(), 2*time.Second)
+		var err error
+		switch sd.Req {
+		case "shutdown":
+			_, err = r.plugin.Shutdown(ctx, &api.Empty{})
+		case "configure":
+			_, err = r.plugin.Configure(ctx, &api.ConfigureRequest{RuntimeName: "verif-raw", RuntimeVersion: "0",
+				RegistrationTimeout: r.mode.regMs, RequestTimeout: r.mode.reqMs})
+		case "synchronize":
+			_, err = r.plugin.Synchronize(ctx, &api.SynchronizeRequest{})
+		case "unknown-event":
+			_, err = r.plugin.StateChange(ctx, &api.StateChangeEvent{Event: api.Event(9999), Pod: &api.PodSandbox{Id: "verif-unknown-event"}})
+		case "unknown-method":
+			err = r.rpcc.Call(ctx, "nri.pkg.api.v1alpha1.Plugin", "NoSuchMethod", &api.Empty{}, &api.Empty{})
+		}
+		cancel()
+		r.sendMu.Lock()
+		r.sentLog = append(r.sentLog, fmt.Sprintf("%s %s: %v", at, sd.Req, err))
+		r.sendMu.Unlock()
 	}
 }
 
